@@ -201,7 +201,31 @@ def firstSome {α : Type} : List (Option α) → Option α
   | some a :: _ => some a
   | none :: r => firstSome r
 
+/-! F16i: `sortTarHeaders` emits the subtree of a directory once per record of its name; sorting its own
+output again multiplies per level.  The size is predicted with the counting walk of the model
+(`sortHeadersCount`: every distinct name is visited once, so its cost does not grow with the answer) BEFORE anything is sorted: above `sortSizeCap` records
+neither the model nor (in the harness) the Go function is run, the answer is `blowup` (first write) or
+`blowup2` (re-write of what was read back) against the demand `linear`. -/
+
+def overCap (fs : List FileRec) : Bool :=
+  match sortHeadersCount fs with
+  | some n => decide (sortSizeCap < n)
+  | none => false
+
+/-- F16i iff every file list above the cap has two records of one directory name that has children -/
+def blowupClass (l : List IPkg) : String :=
+  if (l.filter fun ip => overCap ip.files).all (fun ip => dupDirWithChildren ip.files) then "F16i" else "unlisted"
+
+/-- the counting walk agrees with the length of what the sort emits (checked on every case below the cap) -/
+def countAgrees (ips : List IPkg) : Bool :=
+  ips.all fun ip => match sortHeaders ip.files, sortHeadersCount ip.files with
+    | some o, some n => o.length == n
+    | none, none => true
+    | _, _ => false
+
 def idbRW (aspect : String) (ips : List IPkg) : String :=
+  if ips.any (fun ip => overCap ip.files) then "blowup\tlinear\t" ++ blowupClass ips else
+  if aspect == "pkg" && !countAgrees ips then "count-mismatch\tcount-mismatch\tunlisted" else
   match renderInstalledAll b64 idbRows ips with
   | .err => triple "werr" "werr" "-"
   | .oob => triple "woob" "woob" "-"
@@ -254,6 +278,12 @@ def idbRW (aspect : String) (ips : List IPkg) : String :=
         triple impl spec (if impl = alt then (if ips.all (fun ip => ip.files.all fun x => x.csum.isEmpty) then "F16h" else "F16c") else "unlisted")
       else triple impl impl "-"
     | _ => -- "text2": re-render what was read
+      let over2 := match parsed with
+        | .ok l => l.any fun ip => overCap ip.files
+        | _ => false
+      if over2 then "blowup2\tlinear\t" ++ (match parsed with
+        | .ok l => blowupClass l
+        | _ => "unlisted") else
       let impl := match parsed with
         | .ok l => (match renderInstalledAll b64 idbRows l with
           | .ok t2 => hexS t2
